@@ -87,6 +87,16 @@ def rk_container(eng, st, pre):
     return st.alloc(OContainer(a), 'container')
 
 
+def _load_locals_lock():
+    import json, os
+    p = os.path.join(os.path.dirname(os.path.dirname(os.path.abspath(__file__))), 'locals.lock')
+    try:
+        return json.load(open(p))
+    except Exception:
+        return {}
+
+
+LOCALS_LOCK = _load_locals_lock()       # qualified function name -> its locals in order of first binding, recorded at relock time
 CALLER_GHOST = {'LE', 'loop_k', 'stopped', 'left_by_break', 'gr_stopfield', 'first_sub_ctx', 'first_sub_path'}
 USE_LOG = set()      # contracts applied at call sites since the log was last cleared (dependency closure of a proof)
 
@@ -281,6 +291,24 @@ class FnContract:
     def verify(self, src, make_models, stream_model='bytesio', variant=None):
         """-> VerifyResult with obligations for every path end and every loop"""
         node = src.find(self.qual)
+        # contracts name the accumulators of a function (loop invariants); when locals were merely RENAMED since the contracts were
+        # locked - same number of locals, in the same order of first binding - the function is alpha-renamed back to the locked names
+        # before it is executed (a consistent renaming of locals does not change what the function computes)
+        ref = LOCALS_LOCK.get(self.qual)
+        renamed = False
+        if ref is not None:
+            now = src.local_order(node)
+            gone = [r for r in ref if r not in now]          # names the contracts may mention that no longer exist
+            new_ = [n for n in now if n not in ref]          # names that did not exist when the contracts were locked
+            if gone and len(gone) == len(new_):
+                # heuristic pairing (relative order of first binding); a wrong pairing cannot make a violation out of nothing because
+                # failures of a function renamed this way count only when replayed natively (see check.conclude)
+                mapping = dict(zip(new_, gone))
+                others = {x.id for x in ast.walk(node) if isinstance(x, ast.Name)} - set(now)
+                others |= {a.arg for a in node.args.args}
+                if not (set(mapping.values()) & others):
+                    node = src.alpha_rename(node, mapping)
+                    renamed = True
         from . import values as _values
         _values._counter[0] = 0          # names are deterministic per function: identical queries on identical source
         models = make_models(stream_model)
@@ -314,6 +342,7 @@ class FnContract:
             st.assume(LEMMAS[ln].as_hyp())
         eng.loop_extra = {'pre': pre}
         res = VerifyResult(self, stream_model)
+        res.renamed = renamed
         try:
             finals = eng.block(node.body, st)
         except OutOfReach as e:
@@ -420,6 +449,7 @@ class VerifyResult:
         self.paths = 0
         self.out_of_reach = None
         self.loops_unused = []
+        self.renamed = False
 
 
 REGISTRY = {}
